@@ -696,6 +696,7 @@ func runShare(res *vk.Result, maxLen int) {
 	deadline := vk.Deadline()
 	// outer work index: (c0, c1) pairs; chains of length 1 belong to item (c0, 0)
 	var chain []int
+	sampled := map[string]bool{}
 	var rec func(sc *vk.Scenario, depth, max int, variants []variant, form string)
 	rec = func(sc *vk.Scenario, depth, max int, variants []variant, form string) {
 		for _, vr := range variants {
@@ -703,6 +704,10 @@ func runShare(res *vk.Result, maxLen int) {
 			out, p := u.checkOne(q, chain)
 			sc.Executions++
 			sc.Outcome(out)
+			if !sampled[out] && (strings.HasPrefix(out, "serve[static-set.members]|GET|") || strings.HasPrefix(out, "refuse[no-link-from:decoy-file-nonlink-field]|GET|")) {
+				sampled[out] = true
+				sc.Sample(map[string]any{"request": q, "url": u.url(chain, q.Assemble, q.Form), "oracle_and_status": out})
+			}
 			if p != nil {
 				u.report(res, sc, q, append([]int(nil), chain...), p)
 			}
